@@ -105,6 +105,15 @@ def exec_cases(rnd, nrand):
                 cases.append(mk(kind, mx, [('race', st), ('fin', 0), ('exec',), ('fin', st), ('exec',), ('fin', 0)], 'exec-passive-racing-start'))
                 cases.append(mk(kind, mx, [('exec',), ('fin', 0), ('exec',), ('stale', st, 1), ('exec',), ('fin', 0), ('exec',)], 'exec-stale-result'))
                 cases.append(mk(kind, mx, [('exec',), ('passive', st), ('fin', 0), ('exec',), ('fin', 0)], 'exec-passive-in-flight'))
+    # command_endpoint branch of ExecuteCheck (endpoint connected / not connected): the flag is released on return, every
+    # ExecuteCheck gets through to the remote branch, also back to back and with passive results in between
+    for kind in ('host', 'svc'):
+        for conn in (0, 1):
+            for mx in (1, 3):
+                ops = [('exec',), ('exec',), ('passive', rnd.choice((0, 2))), ('exec',), ('fin', 0), ('exec',)]
+                c = mk(kind, mx, ops, 'exec-remote')
+                c['lines'][0] += ' remote=1 conn=%d' % conn
+                cases.append(c)
     for _ in range(nrand):
         ops = []
         for _ in range(rnd.randint(3, 14)):
@@ -268,6 +277,18 @@ def nontrivial(case, impl_lines):
 
 def classify(case, detail, impl_lines):
     w = detail.split()[0] if detail else ''
+    try:
+        # diagnosis aid for timing-dependent hits (the confirming re-run of the runner may not hit again and then the
+        # replay file has no detail): keep the original detail and the trace of real-thread cases next to the build
+        import os, time
+        d = os.environ.get('VERIF_BUILD', os.path.join(os.path.dirname(os.path.dirname(os.path.abspath(__file__))), 'build'))
+        with open(os.path.join(d, 'C04_oracle_hits.log'), 'a') as f:
+            f.write('%s | %s | %s\n' % (time.strftime('%Y-%m-%d %H:%M:%S'), ' ; '.join(case['lines'][:3]), detail))
+        if case['lines'][0].startswith('sch_run') and not os.path.exists(os.path.join(d, 'C04_last_hit_trace.txt.keep')):
+            with open(os.path.join(d, 'C04_last_hit_trace.txt'), 'w') as f:
+                f.write(detail + '\n' + '\n'.join(case['lines']) + '\n' + '\n'.join(impl_lines))
+    except Exception:
+        pass
     if w == 'single-flight' and 'sch_exec' in detail and 'second-start' in detail:
         return 'single-flight-det'   # deterministic ExecuteCheck case (virtual clock): replay always reproduces
     if case['lines'][0].startswith('sch_tl_new'):
